@@ -17,6 +17,9 @@ def showRData : RData → String
   | .txt ss => ",".intercalate ("TXT" :: ss.map toHex)
   | .hinfo c o => s!"HINFO,{toHex c},{toHex o}"
   | .caa c r t v => s!"CAA,{if c then 1 else 0},{r},{toHex t},{toHex v}"
+  | .tlsa sm u l m d => s!"{if sm then "SMIMEA" else "TLSA"},{u},{l},{m},{toHex d}"
+  | .ds t g y d => s!"DS,{t},{g},{y},{toHex d}"
+  | .sshfp g y f => s!"SSHFP,{g},{y},{toHex f}"
 
 def showRec (r : Rec) : String := s!"{showName r.name}/{r.cls}/{r.ttl}/{showRData r.data}"
 
